@@ -103,8 +103,10 @@ def expected_item(plan, idx, v, env, how):
     raise AssertionError(plan)
 
 
-def mk(L, debug_batch=False):
+def mk(L, debug_batch=False, plans=None):
     def f(plan, *a):
+        if plans is not None:
+            plan = plans[conc(plan, len(plans))]
         ops = [conc(a[i], len(OPS)) for i in range(L)]
         vals = list(a[L:2 * L])
         if any(OPS[o] == "str" for o in ops):
@@ -366,17 +368,19 @@ def run_debug(ops, vals):
     return True
 
 
-def params(L):
-    return [I("plan", 0, len(PLANS) - 1)] + [I("o%d" % i, 0, len(OPS) - 1) for i in range(L)] + [I("v%d" % i) for i in range(L)]
+def params(L, nplans=None):
+    return [I("plan", 0, (nplans or len(PLANS)) - 1)] + [I("o%d" % i, 0, len(OPS) - 1) for i in range(L)] + [I("v%d" % i) for i in range(L)]
 
 
 def conds(tier):
     q = tier == "quick"
     if q:
-        return [Cond("hist", mk(4), params(4), pin=2, builds=("C",), budget=300,
-                     family="batch API histories of length 4 x %d flush-body plans" % len(PLANS), encodes=ENC),
-                Cond("histP", mk(3), params(3), pin=2, builds=("P",), budget=300,
-                     family="batch API histories of length 3 (pure build)", encodes=ENC),
+        P4 = [0, 1, 4, 6, 8]
+        return [Cond("hist4", mk(4, plans=P4), params(4, len(P4)), pin=2, builds=("C",), budget=300,
+                     family="batch API histories of length 4 x flush-body plans %s" % [PLANS[i] for i in P4], encodes=ENC),
+                Cond("hist3", mk(3), params(3), pin=2, builds=("C", "P"), budget=300,
+                     family="batch API histories of length 3 x all %d flush-body plans (both builds)" % len(PLANS),
+                     encodes=ENC),
                 Cond("debugbatch", mk(4, True), [I("plan", 0, 0)] + params(4)[1:], pin=2, builds=("C",), budget=200,
                      family="same histories on DebugBatch/DebugBatchItem", encodes=ENC)]
     return [Cond("hist", mk(5), params(5), pin=3, builds=("C",), budget=3000,
